@@ -19,7 +19,7 @@ import impl
 from common import driver_batch
 
 ID = 'C19'
-EXTRA_MODULES = ['Mistletoe.Proofs.Outline', 'Mistletoe.Proofs.TocPlain', 'Mistletoe.Proofs.TocEndToEnd', 'propsdriver']
+EXTRA_MODULES = ['Mistletoe.Proofs.Outline', 'Mistletoe.Proofs.TocPlain', 'Mistletoe.Proofs.TocEndToEnd', 'Mistletoe.Proofs.TocTokens', 'propsdriver']
 RULE = ('generated outline documents (first heading shallowest, never deepening by more than one; plain-word titles; ATX '
         'with/without closing #s and setext; at top level, inside block quotes and list items; paragraphs, code and '
         'lists in between) x depth 1-6 x omit_title x filter predicates (substring filters); plus spec/mutated documents '
@@ -31,7 +31,8 @@ PARTIAL = ['the property as stated is proved END TO END (Props/C19_EndToEnd.lean
            'List nested as the outline of the qualifying headings, in document order, with the plain text) under three decidable '
            'hypotheses on the parsed tree - headings made of raw text / emphasis / strong / strikethrough / code / escapes free of '
            '<, >, &; the qualifying headings form an outline; their texts begin with a letter - and re-checked on the real TocRenderer '
-           'each run (c19.theorem.document); the inline phase on the titles of the toc list is not part of the theorem',
+           'each run (c19.theorem.document); with the extra hypothesis that the titles are inert inline text the token tree `toc` returns is proved '
+           'too (Props/C19_Tokens.lean: every item a Paragraph of one RawText)',
            'nesting of the toc list by level is proved (C19_toc_nested) for heading lists that are outlines with plain titles '
            '(a letter first, no newline); titles with markup or another first character, and qualifying lists that are not '
            'outlines, are explored on the implementation against the outline oracle only',
@@ -252,6 +253,20 @@ def theorem_unit(ctx):
     ctx.notes.append('of %d generated heading lists %d satisfy the hypotheses of C19_toc_nested' % (len(lists), n_ok))
 
 
+def one_rawtext_each(lst):
+    """every ListItem of the toc List (at any depth) holds a Paragraph whose children are exactly one RawText"""
+    if type(lst).__name__ != 'List':
+        return False
+    for item in lst.children:
+        paras = [c for c in item.children if type(c).__name__ == 'Paragraph']
+        if len(paras) != 1 or [type(x).__name__ for x in paras[0].children] != ['RawText']:
+            return False
+        for c in item.children:
+            if type(c).__name__ == 'List' and not one_rawtext_each(c):
+                return False
+    return True
+
+
 def theorem_unit_document(ctx):
     """`C19_text_toc_current` on the real TocRenderer: documents whose headings (plain text, also with emphasis / code spans)
     sit at top level, in block quotes and in list items; the model parses the text and evaluates the hypotheses; the real
@@ -279,13 +294,17 @@ def theorem_unit_document(ctx):
                 with TocRenderer(depth=q['depth'], omit_title=q['omit_title']) as rd:
                     from mistletoe import Document
                     rd.render(Document(q['text']))
-                    real = {'headings': [[l, t] for l, t in rd._headings], 'toc': toc_tree(rd.toc)}
+                    toc = rd.toc
+                    real = {'headings': [[l, t] for l, t in rd._headings], 'toc': toc_tree(toc), 'one_rawtext_each': one_rawtext_each(toc)}
         except Exception as e:
             real = {'raises': type(e).__name__}
         finally:
             impl.reset_library()
         ctx.compare('c19.theorem.document', {'text': q['text'], 'depth': q['depth'], 'omit_title': q['omit_title']},
-                    {'headings': r['headings'], 'toc': forest_tree(r['forest'])}, real, kind='n%d' % len(r['headings']))
+                    {'headings': r['headings'], 'toc': forest_tree(r['forest']),
+                     # token level (C19_document_toc_tokens): every item's Paragraph is ONE RawText - claimed only under titlesInert
+                     'one_rawtext_each': True if r.get('titlesInert') else real.get('one_rawtext_each') if isinstance(real, dict) else None},
+                    real, kind='n%d' % len(r['headings']))
     ctx.notes.append('of %d generated documents %d satisfy the hypotheses of C19_text_toc_current (plain headings, outline, plain titles)'
                      % (len(reqs), n_ok))
 
